@@ -241,6 +241,8 @@ class World(object):
             del getattr(P, attr)[op["i"]]
         elif o == "CopyFrom":
             setattr(P, attr, getattr(self.P[op["q"]], attr))
+        elif o == "Adopt":
+            P.children = self.P[op["q"]].children
         elif o == "NewFree":
             f = c.free(op["n"], op["v"], op["l"])
             used = set(self.ids.values()) | set(self.prev_used)
@@ -365,6 +367,7 @@ ACTION_OPS = {
     "InsertL": ("Insert", ["p", "i", "c"]), "RemoveL": ("Remove", ["p", "c"]), "PopL": ("Pop", ["p", "i"]),
     "DelName": ("DelName", ["p", "n"]), "DelIdx": ("DelIdx", ["p", "n", "i"]),
     "CopyFromL": ("CopyFrom", ["p", "n", "q"]), "NewFreeL": ("NewFree", ["n", "v", "l"]), "ForgetL": ("Forget", ["c"]),
+    "AdoptL": ("Adopt", ["p", "q"]),
 }
 
 
@@ -454,6 +457,8 @@ def alphabet(names, objs, vals, maxkids):
                 ops.append({"op": "SetIdx", "p": p, "n": n, "i": i, "v": vals[-1]})
             for c in range(1, objs + 1):
                 ops.append({"op": "SetObj", "p": p, "n": n, "c": c})
+        ops.append({"op": "Adopt", "p": p, "q": 3 - p})
+        ops.append({"op": "Adopt", "p": p, "q": p})
         for i in range(1, maxkids + 2):
             ops.append({"op": "Pop", "p": p, "i": i})
             ops.append({"op": "SetAt", "p": p, "i": i, "v": vals[-1]})
@@ -587,7 +592,8 @@ def explore(ctx, focus, kinds, versions, stricts, size):
         failed, _ = judge(ctx, "ElementTreeTrace", "ElementTreeTrace_%s.cfg" % ("S" if strict else "T"), part)
         byid = {e["id"]: e for e in part}
         for i, clause in failed.items():
-            failures.append((byid[i], clause))
+            for part_ in str(clause).split("+"):
+                failures.append((byid[i], part_))
     for e in events:
         ctx.nontrivial((e["op"]["op"], e["outcome"] == "ok", e["conc"], e["strict"],
                         json.dumps(e["pre"]["kids"]), json.dumps([o[1] for o in e["pre"]["objs"]])))
